@@ -28,6 +28,39 @@ Theorem C17hs13_schedule_bounds :
 Proof. exact sched_bounds. Qed.
 Print Assumptions C17hs13_schedule_bounds.
 
+(* dual-stack client: while the version is negotiated (before the state machine exists) the
+   ClientHello is repeated on the same schedule, and a datagram that does not complete the server's
+   first message only restarts the timeout *)
+Theorem C17hs13_negotiation_interval_law :
+  forall (c : cfg) (e : ep) (k : nat),
+    negotiating e = true ->
+    let e' := neg_timeouts k c e in
+    negotiating e' = true /\ e_out e' = e_out e /\ e_interval e' = sched c (e_interval e) k /\
+    e_timer (neg_timeouts (S k) c e) = e_timer e' + e_interval (neg_timeouts (S k) c e).
+Proof. exact neg_interval_law. Qed.
+Print Assumptions C17hs13_negotiation_interval_law.
+
+Theorem C17hs13_negotiation_timer_step :
+  forall (c : cfg) (e : ep),
+    negotiating e = true ->
+    let e' := fst (ep_timer c e) in
+    e_interval e' = bump c (e_interval e) /\ e_timer e' = e_timer e + e_interval e' /\
+    e_out e' = e_out e /\ negotiating e' = true /\ e_lastsent e' = e_lastsent e /\ e_sent e' = e_sent e /\
+    snd (ep_timer c e) = pack c (e_out e).
+Proof. exact neg_timer_step. Qed.
+Print Assumptions C17hs13_negotiation_timer_step.
+
+Theorem C17hs13_negotiation_datagram_quiet :
+  forall (c : cfg) (e : ep) (d : dgram) (now : N),
+    negotiating e = true ->
+    let e1 := fst (fst (fst (process_records true e d))) in
+    has e1 0 HT_SH 0 || has e1 0 HT_HRR 0 = false ->
+    snd (ep_datagram c e d now) = [] /\ negotiating (fst (ep_datagram c e d now)) = true /\
+    e_timer (fst (ep_datagram c e d now)) = now + e_interval e /\
+    e_interval (fst (ep_datagram c e d now)) = e_interval e.
+Proof. exact neg_datagram_quiet. Qed.
+Print Assumptions C17hs13_negotiation_datagram_quiet.
+
 (* one expiry: what is left of the current flight is sent again *)
 Theorem C17hs13_timer_step :
   forall (c : cfg) (e : ep),
@@ -120,6 +153,14 @@ Theorem C17hs13_emission_bound :
 Proof. exact emission_bound. Qed.
 Print Assumptions C17hs13_emission_bound.
 
+(* the same bound with the negotiation phase of a dual-stack client included *)
+Theorem C17hs13_emission_bound_with_negotiation :
+  forall (c : cfg) (ins : list input) (e : ep),
+    bounded c e ->
+    (emitted (snd (erun c e ins)) <= n_timers ins * maxrecs c + n_dgrams ins * (1 + maxrecs c))%nat.
+Proof. exact emission_bound_ep. Qed.
+Print Assumptions C17hs13_emission_bound_with_negotiation.
+
 Theorem C17hs13_initial_states_bounded : forall (c : cfg) (client : bool), bounded c (ep_init c client).
 Proof. exact ep_init_bounded. Qed.
 Print Assumptions C17hs13_initial_states_bounded.
@@ -153,11 +194,11 @@ Print Assumptions C17hs13_reanswer_needs_progress.
 
 (* the zero-delay ping-pong is impossible: over ANY sequence of ACK-free datagrams, however long,
    that arrive within a window shorter than half an initial interval starting no earlier than the
-   endpoint's last transmission, the endpoint emits handshake records in at most 7 - stage steps
-   (each one moves it to a later flight) *)
+   endpoint's last transmission (its state machine has transmitted: [e_sent]), the endpoint emits
+   handshake records in at most 7 - stage steps (each one moves it to a later flight) *)
 Theorem C17hs13_no_zero_delay_ping_pong :
   forall (c : cfg) (T : N) (ins : list input), flags_cfg c -> forall e,
-    Forall (in_window c T) ins -> stage e <= 7 -> (e_fst e = Waiting -> T <= e_lastsent e) ->
+    Forall (in_window c T) ins -> stage e <= 7 -> (e_fst e = Waiting -> T <= e_lastsent e /\ e_sent e = true) ->
     N.of_nat (count_hs (snd (run c e ins))) + stage e <= 7.
 Proof. exact no_zero_delay_ping_pong. Qed.
 Print Assumptions C17hs13_no_zero_delay_ping_pong.
